@@ -345,14 +345,20 @@ def handleC17 (fields : List String) : Verdict :=
         let agrees9 := r == 3 && (List.range 81).all (fun c => match givens[c]? with
           | some (some d) => known9.getD c 0 == d
           | _ => true)
-        let sols := if r ≤ 2 then solveSudoku r givens else if blank then [pattern] else if agrees9 then [known9] else []
+        -- roots 4 and up: puzzles cut out of the pattern grid; when the givens agree with it, it is a solution
+        let agreesP := r ≥ 4 && (List.range (sq * sq)).all (fun c => match givens[c]? with
+          | some (some d) => pattern.getD c 0 == d
+          | _ => true)
+        let sols := if r ≤ 2 then solveSudoku r givens else if blank then [pattern] else if agrees9 then [known9]
+          else if agreesP then [pattern] else []
         -- oracle (f), root 3: exchanging a digit that is given somewhere with a digit that is given nowhere turns the
         -- solution into another valid completed grid, which does not keep the givens and must falsify the formula
-        let ofr := if !agrees9 || blank then none else
-          let present := fun (d : Nat) => (givens.take 81).any (fun g => g == some d)
-          ((List.range 9).map (· + 1)).findSome? (fun d => if present d then none else
-            ((List.range 9).map (· + 1)).findSome? (fun e => if !present e then none else
-              let g' := known9.map (fun x => if x == d then e else if x == e then d else x)
+        let ofr := if !(agrees9 || agreesP) || blank then none else
+          let base := if agrees9 then known9 else pattern
+          let present := fun (d : Nat) => (givens.take (sq * sq)).any (fun g => g == some d)
+          ((List.range sq).map (· + 1)).findSome? (fun d => if present d then none else
+            ((List.range sq).map (· + 1)).findSome? (fun e => if !present e then none else
+              let g' := base.map (fun x => if x == d then e else if x == e then d else x)
               if holdsConj (boardOf g') fuel f == some true then
                 some s!"the valid grid obtained from the solution by exchanging {d} and {e} does not keep the given {e}s, yet satisfies the emitted formula"
               else none))
